@@ -1,4 +1,4 @@
-import SnaxVerif.Lemmas.PipelineConstruct
+import SnaxVerif.Lemmas.PipelineProgram
 /-! # C15 — pipelined double-buffered loops equal the sequential loop
 
 Model: `Model/Pipeline.lean` (the three passes WITH fixes F16 and FC15b). `Prog` = stages after PipelineDuplicateBuffers; an event
@@ -148,6 +148,33 @@ theorem C15_end_to_end_partial {l : Loop} {p : Pipe} {st : List (List SOp)} {til
   · intro sched m hsch a ha
     exact C15_equiv_original_partial (hsafe hin) hwf hsch m a ha
 
+/-- every op event of the loop exactly once: the events of the program emitted by the model of UnrollPipeline (prologue,
+steady-state loop, epilogue read off `evalUnroll`) are a permutation of the events of the original loop -/
+theorem emitted_program_perm {p : Prog} {N : Nat} (hS : 0 < p.stages.length) (hN : p.stages.length - 1 ≤ N) :
+    (seqEvents p N).Perm (emittedEvents p N) := by
+  rw [emitted_eq_pipe hS hN]
+  exact pipe_perm p N
+
+/-- the emitted program order is itself a schedule (so the schedule theorems are not vacuous for any program, stage count or
+trip count, and apply to the program as emitted) -/
+theorem emitted_program_schedule {p : Prog} {N : Nat} (hS : 0 < p.stages.length) (hN : p.stages.length - 1 ≤ N) :
+    Schedule p N (emittedEvents p N) := by
+  rw [emitted_eq_pipe hS hN]
+  exact pipe_schedule p N
+
+/-- C15 for the program as emitted, run in program order, against the ORIGINAL loop -/
+theorem C15_emitted_program_partial {p : Prog} {N : Nat} (hs : safeB p = true) (hwf : dupWF p = true)
+    (hS : 0 < p.stages.length) (hN : p.stages.length - 1 ≤ N) (m : Mem) (a : Loc) (ha : isDupLoc p a = false) :
+    exec p true (emittedEvents p N) m a = exec p false (seqEvents p N) m a :=
+  C15_equiv_original_partial hs hwf (emitted_program_schedule hS hN) m a ha
+
+/-- modules with several loops: the model transforms a module loop by loop (`runModule`), and every loop of a module is
+transformed exactly as if it were alone in it (no state survives from one loop to the next); the real passes are compared
+with `runModule` on multi-loop modules by the correspondence check -/
+theorem module_loops_independent {ls : List Loop} {os : List Outcome} (h : runModule ls = .ok os) :
+    os.length = ls.length ∧ ∀ (k : Nat) (hk : k < ls.length), ∃ o, os[k]? = some o ∧ run ls[k] = .ok o :=
+  runModule_get h
+
 /-! ## witnesses -/
 
 /-- a 3-stage chain: tile 0 -> dup 0 -> dup 1 -> tile 1 (as produced by `duplicate`) -/
@@ -160,6 +187,8 @@ def chain3Loop : Loop := ⟨some 0, some 4, some 1, false,
 
 example : run chain3Loop = .ok (.pipelined chain3.stages [] (unroll 3)) := by decide
 example : safeB chain3 = true := by decide
+example : runModule [chain3Loop, { chain3Loop with ub := some 1 }] = .ok [.pipelined chain3.stages [] (unroll 3), .declined] := by decide
+example : emittedEvents chain3 4 = pipeEvents chain3 4 ∧ (emittedEvents chain3 4).length = 12 := by decide
 example : dupWF chain3 = true ∧ isDupLoc chain3 (.cell 1 3) = false ∧ isDupLoc chain3 (.buf 6 0) = false ∧ isDupLoc chain3 (.buf 1 1) = true := by decide
 /-- the stages of `chain3Loop` before duplication satisfy the input clauses, and `duplicate` maps them to `chain3` -/
 def chain3In : List (List SOp) :=
